@@ -1396,3 +1396,129 @@ Proof.
     apply Forall_forall. intros li Hin. apply in_map_iff in Hin as [li' [<- Hin']].
     specialize (Hx H1). rewrite Forall_forall in Hx. simpl. apply Hx. exact Hin'.
 Qed.
+
+Lemma map_const_length {A B C} (c : C) (l : list A) (m : list B) :
+  length l = length m -> map (fun _ => c) l = map (fun _ => c) m.
+Proof. revert m. induction l; intros [|y m] H; simpl in *; try discriminate; [reflexivity|]. f_equal. auto. Qed.
+
+Lemma li_ff_down j li : li_ff (li_down j li) = li_ff li.
+Proof. reflexivity. Qed.
+
+(* a stack built without failfast=True inside a MultiTestResult, nothing assigned afterwards:
+   if an ExtendedToOriginalDecorator around it reads failfast = True, every result below has it *)
+Lemma built_get a : ff_ctor_in_multi a = false -> e2o_get (false, build a) = true ->
+  Forall (fun li => li_ff li = true) (leaf_infos a).
+Proof.
+  induction a as [ff txt| |l IH|x IH|x IH|t x IH] using adapter_ind'; unfold e2o_get; simpl; intros H G.
+  - constructor; [exact G|constructor].
+  - discriminate.
+  - exfalso. destruct l as [|x r]; [discriminate|]. simpl in G, H. apply orb_false_iff in H as [H1 _].
+    pose proof (no_ctor_all_off x H1) as Z.
+    assert (Z' : all_off (snd (e2o_set false (false, build x))) = true /\ fst (e2o_set false (false, build x)) = false).
+    { unfold e2o_set; simpl. destruct (has_ff (build x)); simpl; split; auto. apply all_off_set; exact Z. }
+    destruct Z' as [Z1 Z2]. destruct (has_ff (snd (e2o_set false (false, build x)))).
+    + rewrite (all_off_get _ Z1) in G. discriminate.
+    + rewrite Z2 in G. discriminate.
+  - discriminate.
+  - apply Forall_forall. intros li Hin. apply in_map_iff in Hin as [li' [<- Hin']]. simpl.
+    assert (G' : e2o_get (false, build x) = true) by exact G.
+    specialize (IH H G'). rewrite Forall_forall in IH. apply IH. exact Hin'.
+  - discriminate.
+Qed.
+
+Lemma built_will a : ff_ctor_in_multi a = false ->
+  forall cov, will_stop cov (build a) = map (fun li => cov || li_ff li) (leaf_infos a).
+Proof.
+  induction a as [ff txt| |l IH|x IH|x IH|t x IH] using adapter_ind'; intros H cov;
+    try (simpl; reflexivity).
+  - rewrite leaf_infos_Multi. cbn [build will_stop]. simpl in H. generalize 0.
+    induction l as [|x r IHl]; intro k; [reflexivity|]. simpl in H |- *.
+    apply orb_false_iff in H as [H1 H2]. inversion IH; subst.
+    rewrite map_app, <- (IHl H4 H2 (S k)). f_equal.
+    pose proof (no_ctor_all_off x H1) as Z.
+    set (ec := e2o_set false (false, build x)).
+    assert (Z1 : all_off (snd ec) = true) by
+      (unfold ec, e2o_set; simpl; destruct (has_ff (build x)); simpl; [apply all_off_set|]; exact Z).
+    assert (Z2 : fst ec = false) by (unfold ec, e2o_set; simpl; destruct (has_ff (build x)); reflexivity).
+    destruct ec as [e c] eqn:Eec. simpl in Z1, Z2.
+    rewrite (all_off_e2o_get e c Z2 Z1), orb_false_r. simpl. rewrite (all_off_will c Z1).
+    rewrite map_map.
+    assert (Hl : length (lvs c) = length (leaf_infos x)).
+    { replace c with (snd ec) by (rewrite Eec; reflexivity). unfold ec, e2o_set; simpl.
+      destruct (has_ff (build x)); simpl; rewrite ?lvs_length_set; apply lvs_length_build. }
+    rewrite (map_const_length cov _ _ Hl). apply map_ext_in. intros li Hin. simpl.
+    pose proof (no_ctor_infos x H1) as F. rewrite Forall_forall in F. rewrite (F li Hin), orb_false_r. reflexivity.
+  - simpl in H |- *. rewrite (IH H), map_map. simpl. apply map_ext_in. intros li Hin.
+    destruct (e2o_get (false, build x)) eqn:G; [|rewrite orb_false_r; reflexivity].
+    pose proof (built_get x H G) as F. rewrite Forall_forall in F. rewrite (F li Hin), !orb_true_r. reflexivity.
+  - simpl in H |- *. rewrite (IH H), map_map. simpl. apply map_ext_in. intros li Hin.
+    destruct (e2o_get (false, build x)) eqn:G; [|rewrite orb_false_r; reflexivity].
+    pose proof (built_get x H G) as F. rewrite Forall_forall in F. rewrite (F li Hin), !orb_true_r. reflexivity.
+  - simpl in H |- *. rewrite (IH H), map_map. reflexivity.
+Qed.
+
+Lemma has_ff_set b n : has_ff (set_ff b n) = true.
+Proof. destruct n as [r|e|l|ff e x|e x|ff x]; simpl; try reflexivity. destruct (has_ff x); reflexivity. Qed.
+
+Lemma set_set b b' n : set_ff b (set_ff b' n) = set_ff b n.
+Proof.
+  induction n as [r|e|l IH|ff e x IH|e x IH|ff x IH] using node_ind'; simpl; try reflexivity.
+  - f_equal. rewrite map_map. apply map_ext_F. eapply Forall_impl; [|exact IH]. intros ec H. simpl.
+    destruct (has_ff (snd ec)) eqn:E; simpl; [rewrite has_ff_set, H; reflexivity|rewrite E; reflexivity].
+  - destruct (has_ff x) eqn:E; simpl; [rewrite has_ff_set, IH; reflexivity|rewrite E; reflexivity].
+Qed.
+
+Lemma plain_has_ff a : has_wrapper a = false -> has_ff (build a) = true.
+Proof. destruct a; simpl; intro H; try reflexivity; discriminate. Qed.
+
+(* the member a MultiTestResult holds after construction and a later assignment of failfast *)
+Lemma plain_member b x : has_wrapper x = false ->
+  e2o_set b (e2o_set false (false, build x)) = (false, set_ff b (build x)).
+Proof.
+  intro H. unfold e2o_set; simpl. rewrite (plain_has_ff x H). simpl. rewrite has_ff_set, set_set. reflexivity.
+Qed.
+
+Lemma plain_get b a : has_wrapper a = false -> get_ff (set_ff b (build a)) = true -> b = true.
+Proof.
+  induction a as [ff txt| |l IH|x IH|x IH|t x IH] using adapter_ind'; simpl; intros H G; try discriminate;
+    try exact G.
+  - destruct l as [|x r]; [discriminate|]. simpl in H, G. apply orb_false_iff in H as [H1 _].
+    inversion IH; subst. fold (e2o_set false (false, build x)) in G.
+    fold (e2o_set b (e2o_set false (false, build x))) in G. rewrite (plain_member b x H1) in G. simpl in G.
+    rewrite has_ff_set in G. auto.
+  - rewrite (plain_has_ff x H) in G. simpl in G. rewrite has_ff_set in G. auto.
+Qed.
+
+Lemma plain_will b a : has_wrapper a = false ->
+  forall cov, will_stop cov (set_ff b (build a)) = map (fun _ => cov || b) (leaf_infos a).
+Proof.
+  induction a as [ff txt| |l IH|x IH|x IH|t x IH] using adapter_ind'; intros H cov; try (simpl; reflexivity);
+    try (simpl in H; discriminate).
+  - rewrite leaf_infos_Multi. cbn [build set_ff will_stop]. simpl in H. generalize 0.
+    induction l as [|x r IHl]; intro k; [reflexivity|]. simpl in H. apply orb_false_iff in H as [H1 H2].
+    inversion IH; subst. cbn [map flat_map ginfos]. rewrite map_app, <- (IHl H4 H2 (S k)). f_equal.
+    fold (e2o_set false (false, build x)). fold (e2o_set b (e2o_set false (false, build x))).
+    rewrite (plain_member b x H1). cbn [snd]. rewrite (H3 H1), map_map. apply map_ext. intros _.
+    unfold e2o_get; simpl. rewrite has_ff_set.
+    destruct (get_ff (set_ff b (build x))) eqn:G; [|rewrite orb_false_r; reflexivity].
+    rewrite (plain_get b x H1 G), !orb_true_r. reflexivity.
+  - simpl in H |- *. rewrite (plain_has_ff x H). simpl. rewrite (IH H), map_map. apply map_ext. intros _.
+    unfold e2o_get; simpl. rewrite has_ff_set.
+    destruct (get_ff (set_ff b (build x))) eqn:G; [|rewrite orb_false_r; reflexivity].
+    rewrite (plain_get b x H G), !orb_true_r. reflexivity.
+Qed.
+
+(* F18 only where the finding says: failfast assigned on a stack that contains a ThreadsafeForwardingResult /
+   TestResultDecorator / Tagger, or a failfast=True result inside a MultiTestResult *)
+Theorem finding_F18_confined i : finding_F18 i = true ->
+  set_on_wrapper_stack i = true \/ ff_ctor_in_multi (stack i) = true.
+Proof.
+  intro Hf. destruct (set_on_wrapper_stack i) eqn:Ew; [left; reflexivity|].
+  destruct (ff_ctor_in_multi (stack i)) eqn:Ec; [right; reflexivity|]. exfalso.
+  unfold finding_F18 in Hf. apply negb_true_iff in Hf.
+  assert (E : effective_ff i = map (intended_ff i) (leaf_infos (stack i))).
+  { unfold effective_ff, intended_ff, set_on_wrapper_stack, init in *. destruct (set_after i) as [b|].
+    - rewrite (plain_will b _ Ew). reflexivity.
+    - rewrite (built_will _ Ec). reflexivity. }
+  rewrite E, lbool_eqb_refl in Hf. discriminate.
+Qed.
